@@ -1,5 +1,6 @@
 """Pick authentication type based on device support."""
 
+import asyncio
 import logging
 from typing import Tuple
 
@@ -102,7 +103,19 @@ async def verify_connection(
 ) -> PairVerifyProcedure:
     """Perform Pair-Verify on a connection and enable encryption."""
     verifier = pair_verify(credentials, connection)
-    has_encryption_keys = await verifier.verify_credentials()
+    try:
+        has_encryption_keys = await verifier.verify_credentials()
+    except (
+        exceptions.AuthenticationError,
+        exceptions.ProtocolError,
+        OSError,
+        asyncio.TimeoutError,
+    ):
+        raise
+    except Exception as ex:
+        # A reply that cannot be decrypted, lacks fields or carries malformed keys
+        # means that the device could not prove its identity
+        raise exceptions.AuthenticationError(str(ex)) from ex
 
     if has_encryption_keys:
         output_key, input_key = verifier.encryption_keys(
